@@ -756,6 +756,15 @@ class Models:
         ok, c = concrete(s)
         yield st, (const(c.rstrip()) if ok and not args else V(STR, str_rstrip(s.term)))
 
+    def str_zfill(self, eng, s, args, kw, st, node):
+        ok, c = concrete(s)
+        okn, n = concrete(args[0])
+        if ok and okn:
+            yield st, const(c.zfill(n))
+            return
+        f = z3.Function("str_zfill", z3.StringSort(), z3.IntSort(), z3.StringSort())
+        yield st, V(STR, f(s.term, args[0].term))
+
     def str_lstrip(self, eng, s, args, kw, st, node):
         yield st, V(STR, z3.Function("str_lstrip", z3.StringSort(), z3.StringSort())(s.term))
 
@@ -1019,7 +1028,7 @@ class Models:
     def _install_builtins(self):
         b = self.builtin_handlers
         for name in ("len", "max", "min", "set", "list", "tuple", "dict", "sorted", "int", "float", "str", "bool",
-                     "round", "abs", "isinstance", "issubclass", "any", "all", "next", "range", "enumerate", "zip",
+                     "round", "abs", "bin", "isinstance", "issubclass", "any", "all", "next", "range", "enumerate", "zip",
                      "hasattr", "print", "sum", "reversed", "repr", "iter", "frozenset"):
             b[name] = VFunc("handler", fn=getattr(self, "bi_" + name), name=name)
 
@@ -1316,6 +1325,15 @@ class Models:
             yield st, VList(list(reversed(a.items)))
             return
         raise Untranslatable("reversed of symbolic sequence", node)
+
+    def bi_bin(self, eng, st, args, kw, node):
+        a = args[0]
+        ok, c = concrete(a)
+        if ok and isinstance(c, int):
+            yield st, const(bin(c))
+            return
+        f = z3.Function("int_bin", z3.IntSort(), z3.StringSort())
+        yield st, V(STR, f(a.term))
 
     def bi_int(self, eng, st, args, kw, node):
         a = args[0]
